@@ -4,7 +4,8 @@
    solve_cg / solve_bicg (itol) / solve_bicgstab / solve_qmr (coq/Model/Iter.v) on a matrix given by
    its two products; it returns (Result, final x, ghost) or a panic. *)
 From Coq Require Import List Arith ZArith Floats.
-From OV Require Import Base.Panic Base.Arith Model.Vector Model.Matrix Model.Sparse Model.Iter Inst.FloatInst Proofs.Iter.
+From OV Require Import Base.Panic Base.Arith Model.Vector Model.Matrix Model.Sparse Model.Iter Inst.FloatInst Inst.QcInst
+  Proofs.Iter Proofs.IterField Proofs.IterInst.
 Import ListNotations.
 
 (* ---- any arithmetic (floats included), any products, any sizes ---- *)
@@ -51,3 +52,87 @@ Proof. apply (@ok_k_witness SAF). vm_compute. reflexivity. Qed.
 Example zero_budget_untouched_nonvacuous : exists r g,
   @run SAF (sp_mul ex_s) (sp_tmul ex_s) 2 2 BiCGSTAB [1; 2]%float [2; 1]%float 0 ex_tol = Ok (r, [2; 1]%float, g).
 Proof. apply (@out_x_witness SAF). vm_compute. reflexivity. Qed.
+
+(* ---- any field (FieldLaws), ANY square-root function, any matrix given by a linear product
+        [LinOp n mulA]: total on vectors of length n, additive, homogeneous.  The statements are
+        about every value the solver can return -- Ok or Err, from every exit, for every budget --
+        so they say that the recurrence vector equals the true residual b - A x at every iteration.
+        (g_t g is the recurrence residual the last test looked at; over a field a division by
+        zero is a panic, so a run that meets one returns nothing and the statements are silent.) ---- *)
+
+Theorem residual_invariant_cg : forall (A : SArith), FieldLaws (SA A) ->
+  forall n (mulA : list (T (SA A)) -> res (list (T (SA A)))) cols b x0 max tol r x g,
+  LinOp n mulA -> solve_cg mulA n cols b x0 max tol = Ok (r, x, g) ->
+  exists ax, mulA x = Ok ax /\ g_t g = zipw sub b ax.
+Proof. intros A FL n mulA cols b x0 max tol r x g LO H. exact (solve_cg_tracks FL n mulA LO cols b x0 max tol (r, x, g) H). Qed.
+Check residual_invariant_cg : forall (A : SArith), FieldLaws (SA A) ->
+  forall n (mulA : list (T (SA A)) -> res (list (T (SA A)))) cols b x0 max tol r x g,
+  LinOp n mulA -> solve_cg mulA n cols b x0 max tol = Ok (r, x, g) ->
+  exists ax, mulA x = Ok ax /\ g_t g = zipw sub b ax.
+Print Assumptions residual_invariant_cg.
+
+Theorem residual_invariant_bicg : forall (A : SArith), FieldLaws (SA A) ->
+  forall n (mulA mulAT : list (T (SA A)) -> res (list (T (SA A)))) cols itol b x0 max tol r x g,
+  LinOp n mulA -> solve_bicg mulA mulAT n cols itol b x0 max tol = Ok (r, x, g) ->
+  exists ax, mulA x = Ok ax /\ g_t g = zipw sub b ax.
+Proof. intros A FL n mulA mulAT cols itol b x0 max tol r x g LO H. exact (solve_bicg_tracks FL n mulA mulAT LO cols itol b x0 max tol (r, x, g) H). Qed.
+Check residual_invariant_bicg : forall (A : SArith), FieldLaws (SA A) ->
+  forall n (mulA mulAT : list (T (SA A)) -> res (list (T (SA A)))) cols itol b x0 max tol r x g,
+  LinOp n mulA -> solve_bicg mulA mulAT n cols itol b x0 max tol = Ok (r, x, g) ->
+  exists ax, mulA x = Ok ax /\ g_t g = zipw sub b ax.
+Print Assumptions residual_invariant_bicg.
+
+Theorem residual_invariant_bicgstab : forall (A : SArith), FieldLaws (SA A) ->
+  forall n (mulA : list (T (SA A)) -> res (list (T (SA A)))) cols b x0 max tol r x g,
+  LinOp n mulA -> solve_bicgstab mulA n cols b x0 max tol = Ok (r, x, g) ->
+  exists ax, mulA x = Ok ax /\ g_t g = zipw sub b ax.
+Proof. intros A FL n mulA cols b x0 max tol r x g LO H. exact (solve_bicgstab_tracks FL n mulA LO cols b x0 max tol (r, x, g) H). Qed.
+Check residual_invariant_bicgstab : forall (A : SArith), FieldLaws (SA A) ->
+  forall n (mulA : list (T (SA A)) -> res (list (T (SA A)))) cols b x0 max tol r x g,
+  LinOp n mulA -> solve_bicgstab mulA n cols b x0 max tol = Ok (r, x, g) ->
+  exists ax, mulA x = Ok ax /\ g_t g = zipw sub b ax.
+Print Assumptions residual_invariant_bicgstab.
+
+Theorem residual_invariant_qmr : forall (A : SArith), FieldLaws (SA A) ->
+  forall n (mulA mulAT : list (T (SA A)) -> res (list (T (SA A)))) cols b x0 max tol r x g,
+  LinOp n mulA -> solve_qmr mulA mulAT n cols b x0 max tol = Ok (r, x, g) ->
+  exists ax, mulA x = Ok ax /\ g_t g = zipw sub b ax.
+Proof. intros A FL n mulA mulAT cols b x0 max tol r x g LO H. exact (solve_qmr_tracks FL n mulA mulAT LO cols b x0 max tol (r, x, g) H). Qed.
+Check residual_invariant_qmr : forall (A : SArith), FieldLaws (SA A) ->
+  forall n (mulA mulAT : list (T (SA A)) -> res (list (T (SA A)))) cols b x0 max tol r x g,
+  LinOp n mulA -> solve_qmr mulA mulAT n cols b x0 max tol = Ok (r, x, g) ->
+  exists ax, mulA x = Ok ax /\ g_t g = zipw sub b ax.
+Print Assumptions residual_invariant_qmr.
+
+(* Ok k: the TRUE residual passes the code's own test:  ||b - A x|| / ||b||'  <= tol  (or < tol),
+   ||b||' = ||b|| with 0 replaced by 1 (nz).  Stated with the code's division and comparisons
+   because an Arith carries no order laws; for an ordered field it reads ||b - A x|| <= tol ||b||'. *)
+Theorem ok_means_solved : forall (A : SArith), FieldLaws (SA A) ->
+  forall n (mulA mulAT : list (T (SA A)) -> res (list (T (SA A)))) cols sv b x0 max tol k x g,
+  LinOp n mulA -> run mulA mulAT n cols sv b x0 max tol = Ok (IOk k, x, g) ->
+  exists ax resid, mulA x = Ok ax /\
+    div (norm2 (zipw sub b ax)) (nz (norm2 b)) = Ok resid /\
+    (leb resid tol = true \/ ltb resid tol = true).
+Proof. intros A FL n mulA mulAT cols sv b x0 max tol k x g LO H. exact (run_ok_solved FL n mulA mulAT LO cols sv b x0 max tol k x g H). Qed.
+Check ok_means_solved : forall (A : SArith), FieldLaws (SA A) ->
+  forall n (mulA mulAT : list (T (SA A)) -> res (list (T (SA A)))) cols sv b x0 max tol k x g,
+  LinOp n mulA -> run mulA mulAT n cols sv b x0 max tol = Ok (IOk k, x, g) ->
+  exists ax resid, mulA x = Ok ax /\
+    div (norm2 (zipw sub b ax)) (nz (norm2 b)) = Ok resid /\
+    (leb resid tol = true \/ ltb resid tol = true).
+Print Assumptions ok_means_solved.
+
+(* non-vacuity of the field-level hypotheses: Qc is a field (AQ_FieldLaws), the CSC product of
+   [[4,1],[1,3]] is a LinOp (exq_lin), and every solver answers Ok k with k >= 1 on it
+   (b = (1,2), x0 = (2,1), tol 1/1000; SAQ = Qc with a stand-in sqrt, see Proofs/IterInst.v) *)
+Example residual_invariant_nonvacuous :
+  LinOp 2 (@sp_mul AQ exq_s) /\
+  (exists x g, @run SAQ (sp_mul exq_s) (sp_tmul exq_s) 2 2 CG [q 1 1; q 2 1] [q 2 1; q 1 1] 10 (q 1 1000) = Ok (IOk 2, x, g)) /\
+  (exists x g, @run SAQ (sp_mul exq_s) (sp_tmul exq_s) 2 2 (BiCG 1) [q 1 1; q 2 1] [q 2 1; q 1 1] 10 (q 1 1000) = Ok (IOk 2, x, g)) /\
+  (exists x g, @run SAQ (sp_mul exq_s) (sp_tmul exq_s) 2 2 (BiCG 2) [q 1 1; q 2 1] [q 2 1; q 1 1] 10 (q 1 1000) = Ok (IOk 2, x, g)) /\
+  (exists x g, @run SAQ (sp_mul exq_s) (sp_tmul exq_s) 2 2 BiCGSTAB [q 1 1; q 2 1] [q 2 1; q 1 1] 10 (q 1 1000) = Ok (IOk 2, x, g)) /\
+  (exists x g, @run SAQ (sp_mul exq_s) (sp_tmul exq_s) 2 2 QMR [q 1 1; q 2 1] [q 2 1; q 1 1] 10 (q 1 1000) = Ok (IOk 2, x, g)).
+Proof.
+  split; [exact exq_lin|].
+  repeat split; apply (@ok_k_witness SAQ); vm_compute; reflexivity.
+Qed.
